@@ -50,6 +50,18 @@ def impl_case(case):
             except KeyError:
                 out[tag] = ["keyerr"]
         return out
+    if kind == "mfe":
+        # a design file holding one record whose sequence is the given code string, through the design-file reader
+        import os, tempfile
+        from peppercompiler import kinetics as K
+        fd, path = tempfile.mkstemp(suffix=".mfe"); os.close(fd)
+        try:
+            n = len(case[1])
+            with open(path, "w") as f: f.write("%d:u\n%s 0.0 0.0 0\n%s\n%s\nTotal n(s*) = 0.0" % (n, case[1], "." * n, "." * n))
+            try: return {"reader": ["ok", dict(K.read_design(path)).get("u")]}
+            except BaseException as e: return {"reader": ["error", type(e).__name__]}
+        finally:
+            os.remove(path)
     if kind == "tables":
         from peppercompiler.design import DNA_nupack_classes as N
         from peppercompiler import nupack_out_grammar as G
@@ -105,7 +117,14 @@ def run(tier, seed, build):
         alpha = CODES if rng.random() < 0.85 else PROBE
         strs.append(("wc", "".join(rng.choice(alpha) for _ in range(n))))
     cases = pairs + strs
-    impl = fw.run_impl("props.c11", "impl_case", cases + [("tables",)])
+    # every code first, last and alone in a record of a design file, and the random code strings: the reader must accept them
+    mfes = [("mfe", x) for c in CODES for x in (c, c + "A", "A" + c, "AC" + c + "GT")] + [("mfe", x[1]) for x in strs[:100] if x[1] and all(ch in BASES for ch in x[1])]
+    impl_all = fw.run_impl("props.c11", "impl_case", cases + mfes + [("tables",)])
+    impl = impl_all[:len(cases)] + [impl_all[-1]]
+    for c, r in zip(mfes, impl_all[len(cases):-1]):
+        if not isinstance(r, dict) or r.get("reader") != ["ok", c[1]]:
+            failures.append({"kind": "predicate", "key": "reader:" + c[1][:12], "summary": "the design-file reader does not accept the code string %r: %r" % (c[1], r),
+                             "replay": {"input": list(c), "reproduce": "a .mfe with the single record `u` = %s through peppercompiler.kinetics.read_design" % c[1]}})
     T = impl[-1]
     model = fw.run_model([["C11", ["inter", c[1], c[2]]] if c[0] == "inter" else ["C11", ["wc", c[1]]] for c in cases])
     nontrivial = set()
@@ -138,7 +157,7 @@ def run(tier, seed, build):
     for key, summ in predicate_tables(T, C):
         failures.append({"kind": "predicate", "key": key, "summary": summ,
                          "replay": {"input": key, "reproduce": "cd /verif && harness/check.py C11   # evaluates the table predicates on /repo's live modules and compiled C"}})
-    return {"evaluations": len(cases) + 1, "distinct_nontrivial": len(nontrivial),
+    return {"evaluations": len(cases) + len(mfes) + 1, "distinct_nontrivial": len(nontrivial),
             "rule": "exhaustive: every ordered pair over the 15 codes + 5 non-codes through constraint_load.intersect_groups and Sequence.fix_seq; random code strings through both wc functions; plus the table predicates on the live module dicts and on WC/degenerates/randbasec of a C harness built from the working tree. Non-trivial = intersection that is a third code, or a reverse complement of length>=2 differing from its input",
             "samples": [list(c) for c in cases[:3]] + [list(c) for c in strs[:3]],
             "distribution": {"pairs": len(pairs), "strings": len(strs), "c_harness": "ok" if C else cnote},
